@@ -38,7 +38,8 @@ func (cl *Client) ASExchange(realm string, ASReq messages.ASReq, referral int) (
 				cl.settings.setAssumePreAuthentication(true)
 				err = setPAData(cl, &e, &ASReq)
 				if err != nil {
-					return messages.ASRep{}, krberror.Errorf(err, krberror.KRBMsgError, "AS Exchange Error: failed setting AS_REQ PAData for pre-authentication required")
+					// the client cannot act on the KDC's error: the caller gets that error
+					return messages.ASRep{}, krberror.Errorf(e, krberror.KDCError, "AS Exchange Error: kerberos error response from KDC; failed setting AS_REQ PAData for pre-authentication required: %v", err)
 				}
 				b, err := ASReq.Marshal()
 				if err != nil {
@@ -57,7 +58,11 @@ func (cl *Client) ASExchange(realm string, ASReq messages.ASReq, referral int) (
 					return messages.ASRep{}, krberror.Errorf(err, krberror.KRBMsgError, "maximum number of client referrals exceeded")
 				}
 				referral++
-				return cl.ASExchange(e.CRealm, ASReq, referral)
+				rep, rerr := cl.ASExchange(e.CRealm, ASReq, referral)
+				if rerr != nil {
+					return rep, krberror.Errorf(e, krberror.KDCError, "AS Exchange Error: kerberos error response from KDC; following the client referral failed: %v", rerr)
+				}
+				return rep, nil
 			default:
 				return messages.ASRep{}, krberror.Errorf(err, krberror.KDCError, "AS Exchange Error: kerberos error response from KDC")
 			}
